@@ -1,6 +1,6 @@
 """C12 - patterns, switch, runtime type annotations (static clauses)."""
 import re
-from .core import (scope_constructors, CheckError, find_match, arm_region, pat_str, strip_ref, short, only_when,
+from .core import (builds_error, scope_constructors, CheckError, find_match, arm_region, pat_str, strip_ref, short, only_when,
                    Registry, every_path_passes_correlated, pat_subsumes, pat_disjoint, pat_paths, origins)
 
 META = {
@@ -410,6 +410,37 @@ def run(F, rep, tier):
         if ty not in seen_d:
             rep.viol('R12.6', 'destructure|%s|missing' % ty, 'the documented operator pattern for %s has no destructure implementation' % ty, None)
 
+    # a splat-free sequence pattern needs exactly as many values as names: assign_all_basic compares the two lengths itself
+    aab = [p_ for p_ in F.fns if p_.endswith('assign_all_basic')]
+    if not aab:
+        rep.error('R12.5', 'assign_all_basic missing')
+    else:
+        bb_ = F.body(aab[0])
+        lens_ = [c for c in bb_.calls if c.target.rsplit('::', 1)[-1] == 'len']
+        eqs_ = [i for i in bb_.reach for s_ in bb_.stmts(i) if s_[0] == 'a' and s_[2][0] == 'bin' and s_[2][1] in ('Eq', 'Ne')]
+        errs_ = [c for c in bb_.calls if builds_error(F, c)]
+        if len(lens_) >= 2 and eqs_ and errs_:
+            rep.ok('R12.5', 'assign_all_basic', 'lhs.len() == rhs.len() or an error')
+        else:
+            rep.viol('R12.5', '%s|length-check' % aab[0], 'assign_all_basic no longer compares the number of names with the number of values (%d len calls, %d equality tests, %d error exits): `a, b := \'\u00e9\'` (one character, two bytes) binds only a' % (len(lens_), len(eqs_), len(errs_)), bb_.loc(0))
+    # int / floor / ceil / round / trunc of a rational are integers (agree with `is int`)
+    for cf_ in ('floor', 'ceil', 'round', 'trunc'):
+        fn_ = 'nnum::NNum::' + cf_
+        if not F.has_fn(fn_):
+            rep.error('R12.1', fn_ + ' missing')
+            continue
+        cb_ = F.body(fn_)
+        m_ = find_match(F, fn_, r'nnum::NNum', min_arms=3)
+        okr = None
+        for i_, a_ in enumerate(m_['arms']):
+            if any(p_.endswith('::Rational') for p_ in pat_paths(a_['pat'])):
+                regn = arm_region(F, cb_, m_, i_)
+                names_ = [c.target.rsplit('::', 1)[-1] for c in cb_.calls_in(regn)]
+                okr = 'to_integer' in names_ or any(n in names_ for n in ('numer', 'into_raw', 'div_floor'))
+        if okr:
+            rep.ok('R12.1', 'NNum::%s of a rational' % cf_, 'converted to an integer')
+        elif okr is False:
+            rep.viol('R12.1', '%s|rational-stays-rational' % fn_, 'NNum::%s leaves a rational argument at the rational level (no to_integer): `int(7/2) is int` is false and `x: int = int(9/2)` is refused although the value prints as 4' % cf_, cb_.loc(0))
     # ---------------- R12.7
     rep.rule('R12.7', 'for-clause patterns are evaluated per element: in evaluate_for (Normal and Item iteration) eval_lvalue lies on the loop '
              'cycle and receives the per-iteration scope (the result of Env::with_parent), so annotation and callee expressions inside the '
